@@ -174,6 +174,11 @@ func opSxgSignerRekey(a []Sx) Sx {
 	if a[1].Int()%3 == 2 {
 		k2 = sxgKeys[2]
 	}
+	if a[1].Int() >= 6 { // a renewed certificate for the SAME key pair (new serial number, other subject details)
+		der := newCert(k1.cert.PublicKey, k1.priv, "example.com", 9+a[1].Int())
+		cert, _ := x509.ParseCertificate(der)
+		k2 = keyMat{k1.priv, der, cert, k1.kid}
+	}
 	signer := &sxg.Signer{Date: time.Unix(baseDate, 0), Expires: time.Unix(baseDate+100, 0), Certs: []*x509.Certificate{k1.cert},
 		CertUrl: mustURL("https://cert.example.org/cert.cbor"), ValidityUrl: mustURL("https://example.com/v"), PrivKey: k1.priv}
 	out := []Sx{}
